@@ -191,27 +191,33 @@ Qed.
 
 Lemma emit_rend_del plan last i op f :
   f_before f = acc_code plan i MBefore -> f_after f = acc_code plan i MAfter ->
-  emit1_at last i op (w_alt_empty f) = rend_del plan last i op.
+  emit1_at last i op (w_delete f) = rend_del plan last i op.
 Proof.
   intros HB HA. unfold emit1_at, rend_del, B, A.
-  assert (HI : has_instr (w_alt_empty f) = true).
-  { unfold has_instr, w_alt_empty. cbn. rewrite !orb_true_r. cbn. destruct (negb (is_nil (f_before f)) || negb (is_nil (f_after f))); reflexivity. }
-  rewrite HI. cbn [negb w_alt_empty f_before f_alt f_after]. rewrite HB, HA. destruct (last <=? i); reflexivity.
+  assert (HI : has_instr (w_delete f) = true).
+  { unfold has_instr, w_delete, w_clear_special, w_clear_balt, w_clear_bx, w_clear_be, w_clear_sa, w_alt_empty. cbn.
+    destruct (negb (is_nil (f_before f)) || negb (is_nil (f_after f))); reflexivity. }
+  rewrite HI. cbn [negb w_delete w_clear_special w_clear_balt w_clear_bx w_clear_be w_clear_sa w_alt_empty f_before f_alt f_after].
+  rewrite HB, HA. destruct (last <=? i); reflexivity.
 Qed.
 
 Lemma emit_rend_alt plan last i op f alt :
   f_before f = acc_code plan i MBefore -> f_after f = acc_code plan i MAfter ->
   f_alt f = acc_repl plan i MAlternate None ->
-  emit1_at last i op (w_clear_balt (if is_nil alt then w_alt_empty f else w_alt_inject alt f)) = rend_alt plan last i op alt.
+  emit1_at last i op (w_clear_special (if is_nil alt then w_alt_empty f else w_alt_inject alt f)) = rend_alt plan last i op alt.
 Proof.
   intros HB HA HR. unfold emit1_at, rend_alt, B, A, R.
   destruct alt as [|a alt']; cbn [is_nil].
-  - assert (HI : has_instr (w_clear_balt (w_alt_empty f)) = true).
-    { unfold has_instr, w_clear_balt, w_alt_empty. cbn. destruct (negb (is_nil (f_before f)) || negb (is_nil (f_after f))); reflexivity. }
-    rewrite HI. cbn [negb w_clear_balt w_alt_empty f_before f_alt f_after]. rewrite HB, HA. destruct (last <=? i); reflexivity.
-  - assert (HI : has_instr (w_clear_balt (w_alt_inject (a :: alt') f)) = true).
-    { unfold has_instr, w_clear_balt, w_alt_inject. cbn. destruct (negb (is_nil (f_before f)) || negb (is_nil (f_after f))); reflexivity. }
-    rewrite HI. cbn [negb w_clear_balt w_alt_inject f_before f_alt f_after]. rewrite HB, HA, HR.
+  - assert (HI : has_instr (w_clear_special (w_alt_empty f)) = true).
+    { unfold has_instr, w_clear_special, w_clear_balt, w_clear_bx, w_clear_be, w_clear_sa, w_alt_empty. cbn.
+      destruct (negb (is_nil (f_before f)) || negb (is_nil (f_after f))); reflexivity. }
+    rewrite HI. cbn [negb w_clear_special w_clear_balt w_clear_bx w_clear_be w_clear_sa w_alt_empty f_before f_alt f_after].
+    rewrite HB, HA. destruct (last <=? i); reflexivity.
+  - assert (HI : has_instr (w_clear_special (w_alt_inject (a :: alt') f)) = true).
+    { unfold has_instr, w_clear_special, w_clear_balt, w_clear_bx, w_clear_be, w_clear_sa, w_alt_inject. cbn.
+      destruct (negb (is_nil (f_before f)) || negb (is_nil (f_after f))); reflexivity. }
+    rewrite HI. cbn [negb w_clear_special w_clear_balt w_clear_bx w_clear_be w_clear_sa w_alt_inject f_before f_alt f_after].
+    rewrite HB, HA, HR.
     destruct (acc_repl plan i MAlternate None); destruct (last <=? i); reflexivity.
 Qed.
 
